@@ -11,7 +11,6 @@ plain integer arithmetic over (options, available size, observed sizes); it neve
 from __future__ import annotations
 
 import itertools
-import math
 import traceback
 import warnings
 from collections import Counter
@@ -1394,7 +1393,7 @@ def rand_pile(rng):
     return {"k": "pile", "items": items, "focus": rng.randrange(n), "maxcol": rng.randint(1, 9), "maxrow": rng.randint(1, 60), "mode": rng.choice(["rows", "render"])}
 
 
-def padding_space(quick):
+def padding_space():
     widths = [("g", w) for w in range(1, 9)] + [("r", p) for p in REL] + [("p", w) for w in range(1, 9)] + [("c", w) for w in (1, 2, 3, 5, 8, 13)]
     for al in ALIGNS:
         for wk, wv in widths:
@@ -1416,7 +1415,7 @@ def padding_desc(al, wk, wv, minw, left, right, maxcol, maxrow=None):
     return {"k": "padding", "align": al, "width": width, "minw": minw, "left": left, "right": right, "maxcol": maxcol, "maxrow": maxrow, "child": child}
 
 
-def run_desc(ctx, obs, d, sample_first=None):
+def run_desc(ctx, obs, d):
     CASES[d["k"]](d, obs)
     if len(ctx.distinct) < DISTINCT_CAP:
         ctx.case(d)
@@ -1430,7 +1429,7 @@ def run_desc(ctx, obs, d, sample_first=None):
 def padding_exhaustive(ctx, obs, frac):
     idx = 0
     complete = True
-    for combo in padding_space(ctx.quick):
+    for combo in padding_space():
         idx += 1
         if not ctx.mine(idx):
             continue
